@@ -391,15 +391,19 @@ def export_json(stats, verbose=0, category_filter=None, merchant_filter=None):
     by_month = stats.get('by_month', {})
     by_category = stats.get('by_category', {})
 
-    # Calculate gross spending and credits
+    # Gross spending (positive merchants only) is the base for category percentages
     gross_spending = sum(d['total'] for d in by_merchant.values() if d['total'] > 0)
-    credits_total = abs(sum(d['total'] for d in by_merchant.values() if d['total'] < 0))
 
-    # Calculate income and transfers from merchants by tag
-    income_total = sum(d['total'] for d in by_merchant.values()
-                       if 'income' in [t.lower() for t in d.get('tags', set())])
-    transfers_total = abs(sum(d['total'] for d in by_merchant.values()
-                              if 'transfer' in [t.lower() for t in d.get('tags', set())]))
+    # Money-flow figures come from the per-transaction classification in
+    # analyze_transactions(), the same figures the HTML, Markdown and text outputs show
+    income_total = stats.get('income_total', 0)
+    spending_total = stats.get('spending_total', 0)
+    credits_total = stats.get('credits_total', 0)
+    cash_flow = stats.get('cash_flow', 0)
+    transfers_in = stats.get('transfers_in', 0)
+    transfers_out = stats.get('transfers_out', 0)
+    transfers_net = stats.get('transfers_net', 0)
+    transfers_total = abs(transfers_net)
 
     output = {
         'summary': {
@@ -409,8 +413,12 @@ def export_json(stats, verbose=0, category_filter=None, merchant_filter=None):
             'monthly_budget': round(stats['monthly_avg'], 2),
             'num_months': stats['num_months'],
             'income_total': round(income_total, 2),
+            'spending_total': round(spending_total, 2),
             'transfers_total': round(transfers_total, 2),
-            'net_cash_flow': round(income_total - stats['total'], 2) if income_total > 0 else None,  # transfers excluded
+            'transfers_in': round(transfers_in, 2),
+            'transfers_out': round(transfers_out, 2),
+            'transfers_net': round(transfers_net, 2),
+            'net_cash_flow': round(cash_flow, 2),  # income - spending + credits; transfers excluded
         },
         'by_month': {month: {'total': round(total, 2)}
                      for month, total in sorted(by_month.items())},
@@ -482,6 +490,9 @@ def export_markdown(stats, verbose=0, category_filter=None, merchant_filter=None
     transfers_in = stats.get('transfers_in', 0)
     transfers_out = stats.get('transfers_out', 0)
     transfers_net = stats.get('transfers_net', 0)
+
+    # Gross spending (positive merchants only), the base for category percentages
+    gross_spending = sum(d['total'] for d in by_merchant.values() if d['total'] > 0)
 
     lines = ['# Financial Report\n']
 
